@@ -227,6 +227,38 @@ def _alarm(signum, frame):
 _MOD = None
 
 
+def _run_impl_env(case):
+    """run_impl under the environment dimensions that live in the worker process (envx.py): warnings as errors, and the
+    retention / poisoning double run (the SECOND run's output is what is compared with the model)"""
+    if not isinstance(case, dict) or not (case.get("_werr") or case.get("_alias")):
+        return _MOD.run_impl(case)
+    import warnings
+    import envx
+    with warnings.catch_warnings():
+        if case.get("_werr"):
+            for cat in (UserWarning, RuntimeWarning, FutureWarning):
+                warnings.simplefilter("error", cat)
+        if not case.get("_alias"):
+            return _MOD.run_impl(case)
+        import pywhy_graphs  # noqa: F401
+        import pywhy_graphs.algorithms  # noqa: F401
+        import pywhy_graphs.networkx  # noqa: F401
+        envx.install()
+        envx.start()
+        try:
+            _MOD.run_impl(case)
+            envx.install()      # modules imported lazily by run_impl
+            envx.poison_all()
+            envx.start(second=True)
+            out = _MOD.run_impl(case)
+            if envx.shared:
+                # a mutable object returned by an earlier call is returned again: whoever holds the first result sees it change
+                return {"exc": "SharedResultObject", "msg": ", ".join(sorted(set(envx.shared)))[:160]}
+            return out
+        finally:
+            envx.stop()
+
+
 def _impl_worker(args):
     case, tmo = args
     signal.signal(signal.SIGALRM, _alarm)
@@ -243,7 +275,7 @@ def _impl_worker(args):
                     depth, f = depth + 1, f.f_back
                 old_limit = sys.getrecursionlimit()
                 sys.setrecursionlimit(depth + int(rl))
-            out = _MOD.run_impl(case)
+            out = _run_impl_env(case)
         finally:
             signal.alarm(0)
             if old_limit is not None:
@@ -331,9 +363,11 @@ def write_replay(prop, payload):
     return os.path.relpath(path, VERIF)
 
 
-ENV_DIMS = {"neg": {"_lab": "neg"}, "lag": {"_lab": "lag"}, "attrs": {"_attrs": 1}, "layers": {"_layers": "rot"}}
+ENV_DIMS = {"neg": {"_lab": "neg"}, "lag": {"_lab": "lag"}, "attrs": {"_attrs": 1}, "layers": {"_layers": "rot"},
+            "negmix": {"_lab": "negmix"}, "twin": {"_lab": "twin"}, "lits": {"_lab": "lits"},
+            "werr": {"_werr": 1}, "alias": {"_alias": 1}}
 ENV_MODULES = {"C01", "C04", "C05", "C06", "C07", "C08", "C09", "C11", "C12", "C16", "C17", "C18", "C19"}
-_ENV_OWN_KEYS = ("_lab", "_attrs", "_layers", "falsy", "labels", "mixed", "lab", "label", "fam")
+_ENV_OWN_KEYS = ("_lab", "_attrs", "_layers", "_werr", "_alias", "falsy", "labels", "mixed", "lab", "label", "fam")
 
 
 def env_variants(mod, cases, tier, rng):
@@ -353,7 +387,7 @@ def env_variants(mod, cases, tier, rng):
         if "_corpus" in c or any(k in c and c[k] is not None and c[k] is not False for k in _ENV_OWN_KEYS):
             continue
         by_kind.setdefault(c.get("kind", "?"), []).append(c)
-    budget = {"quick": 320, "thorough": 4000}.get(tier, 320)
+    budget = {"quick": 540, "thorough": 6000}.get(tier, 540)
     r = random.Random(rng.randrange(1 << 30))
     for k in by_kind:
         r.shuffle(by_kind[k])
